@@ -59,7 +59,9 @@ class Report:
         self.notes.append(s)
 
     def check_floors(self):
-        floors = load_table("floors.json").get(self.prop, {})
+        table = load_table("floors.json")
+        # a configuration may bind fewer instances (a build without OpenMP has no parallel regions): "<prop>@<config>"
+        floors = table.get("%s@%s" % (self.prop, self.info.get("config")), table.get(self.prop, {}))
         per_rule = {}
         for o in self.obls:
             per_rule[o.rule] = per_rule.get(o.rule, 0) + 1
